@@ -174,7 +174,7 @@ use std::{fmt, hash::{Hash, Hasher}, ops::Deref};
 pub struct Holder<T: ?Sized + 'static> { r: &'static T }
 pub struct Arc<T: ?Sized + 'static> { h: &'static Holder<T> }
 impl<T: ?Sized> Arc<T> {
-    fn from_ref(r: &'static T) -> Self { Arc { h: Box::leak(Box::new(Holder { r })) } }
+    pub fn from_ref(r: &'static T) -> Self { Arc { h: Box::leak(Box::new(Holder { r })) } }
     pub fn ptr_eq(a: &Self, b: &Self) -> bool { std::ptr::eq(a.h as *const Holder<T>, b.h as *const Holder<T>) }
 }
 impl<T: ?Sized> Clone for Arc<T> { fn clone(&self) -> Self { Arc { h: self.h } } }
